@@ -892,6 +892,19 @@ func Apply(ctx context.Context, repo gitstore.Storer, signRSLEntry bool) error {
 		return fmt.Errorf("staged policy is invalid: %w", err)
 	}
 
+	if entryFound {
+		// The staged policy replaces the current one: it must be a valid
+		// successor (root of trust signed by the current root principals, no
+		// rollback), or every later verification would reject it
+		currentState, err := LoadState(ctx, repo, policyEntry)
+		if err != nil {
+			return fmt.Errorf("failed to load current policy: %w", err)
+		}
+		if err := currentState.VerifyNewState(ctx, state); err != nil {
+			return fmt.Errorf("staged policy is not a valid successor of the current policy: %w", err)
+		}
+	}
+
 	// Update the reference for the base to point to the new commit
 	if err := repo.SetReference(PolicyRef, policyStagingTip); err != nil {
 		return fmt.Errorf("failed to set new policy reference: %w", err)
